@@ -11,10 +11,9 @@ package dtypeutils
 //@ end
 
 //@ func (*TimeRange).CheckRangeOverLap
-//@   props C02 C03
+//@   props C02 C03 C13
 //@   requires tsVal != nil
-//@   requires tsVal.StartEpochMs <= tsVal.EndEpochMs && earliest_ts <= latest_ts
-//@   ensures result == (earliest_ts <= tsVal.EndEpochMs && latest_ts >= tsVal.StartEpochMs)
+//@   ensures implies(tsVal.StartEpochMs <= tsVal.EndEpochMs && earliest_ts <= latest_ts, result == (earliest_ts <= tsVal.EndEpochMs && latest_ts >= tsVal.StartEpochMs))
 //@   pure
 //@   safe
 //@ end
